@@ -50,6 +50,7 @@ func (s c13Script) String() string {
 type c13Ctl struct {
 	mu       sync.Mutex
 	holdKind string
+	also     map[string]bool // further yield points at which an armed controller holds (phase 3)
 	armed    bool          // hold the next goroutine that reaches a point of holdKind
 	gate     chan struct{} // closed to release the held goroutine
 	holding  int
@@ -69,7 +70,7 @@ func (c *c13Ctl) at(kind string) {
 			c.maxInIssuer = len(c.inIssuer)
 		}
 	}
-	if kind != c.holdKind {
+	if kind != c.holdKind && !c.also[kind] {
 		c.mu.Unlock()
 		return
 	}
@@ -328,6 +329,13 @@ func c13Run(t *testing.T, o *vOut, ca *vCA, sc c13Script) {
 		ctl.mu.Lock()
 		ctl.gate = make(chan struct{})
 		ctl.armed = true
+		// whichever kind of worker phase 3 produces (after a failed forced renewal the certificate
+		// has left the cache and the worker is a LOAD worker that never reaches the issuer), it is
+		// held at its first worker-only yield point; otherwise the count of loads and policy
+		// consultations would depend on whether a late caller looks at the cache before and at the
+		// wait-channel map after the worker's exit (a second, later worker: allowed by C13, which
+		// bounds workers at a time, but not predictable)
+		ctl.also = map[string]bool{"load": true, "issue": true}
 		if sc.kind == "d9" {
 			ctl.armed = false
 		}
